@@ -41,14 +41,23 @@ class Tracker:
         self.anchors = list(anchors)
         self.counts = Counter()
         self.code_to_name = {}
+        self.unresolved = []
         self.active = False
 
     def start(self):
         if not self.anchors or not hasattr(sys, "monitoring"):
             return
         mon = sys.monitoring
+        self.unresolved = []
         for spec in self.anchors:
-            for code in _resolve(spec):
+            try:
+                codes = _resolve(spec)
+            except Exception:
+                # the anchored function was renamed / moved by a refactor: not an error of
+                # the run; it is reported and left out of the reach verdict
+                self.unresolved.append(spec)
+                continue
+            for code in codes:
                 self.code_to_name[code] = spec
         try:
             mon.use_tool_id(TOOL_ID, "jsverif-reach")
@@ -76,4 +85,5 @@ class Tracker:
         self.active = False
 
     def hits(self):
-        return {a: self.counts.get(a, 0) for a in self.anchors}
+        unresolved = set(getattr(self, "unresolved", []))
+        return {a: self.counts.get(a, 0) for a in self.anchors if a not in unresolved}
